@@ -209,8 +209,19 @@ package core
 //@   ensures ret == nil ==> has(core.macro, d.namedParameters["Name"]) && core.macro[d.namedParameters["Name"]] == d
 //@        && (forall k string :: k != d.namedParameters["Name"] ==> has(core.macro, k) == old(has(core.macro, k)) && core.macro[k] == old(core.macro[k]))
 
+// C11 through PASTE: every successful PASTE collects the rules (ENUM directives) of the pasted macro again, so that an
+// enum declared twice through PASTE reaches the duplicate check of Catalog.AddEnum. ruleCollects counts the calls of
+// collectRulesFromDirectives (ghost).
+//@ ghostvar ruleCollects int
+//@ func (*JApiCore).collectRulesFromDirectives
+//@   tag C11
+//@   trusted
+//@   requires core != nil
+//@   ghostensures ruleCollects == old(ruleCollects) + 1
 //@ func (*JApiCore).processPasteDirective
-//@   tag C18 C07 C01 C02
+//@   tag C18 C07 C01 C02 C11
+//@   ensures [C11] ret == nil ==> ruleCollects > old(ruleCollects)
+//@   ensures [C11] ruleCollects >= old(ruleCollects)
 //@   requires core != nil && DirWF(paste) && MacroWF(core)
 //@   ensures [C18] old(has(core.bannedDirectives, 22)) ==> ret != nil && ret.index == paste.keywordCoords.begin && unchanged()
 //@   ensures [C06] forall x *directive.Directive :: x <= old(allocmark()) ==> x.Parent == old(x.Parent)
@@ -307,19 +318,22 @@ package core
 // parenthesised directive the context goes back to the parent the COPY got (C06). Parents of pre-existing directives
 // are never changed by the replay.
 //@ func (*JApiCore).processDirective
-//@   tag C06 C07
+//@   tag C06 C07 C11
+//@   ensures [C11] ruleCollects >= old(ruleCollects)
 //@   requires core != nil && DirWF(d) && TreeWF() && (core.currentContextDirective != nil ==> 0 <= core.currentContextDirective.depth)
 //@   ensures [C06] forall x *directive.Directive :: x <= old(allocmark()) ==> x.Parent == old(x.Parent)
 //@   ensures [C06] ret == nil && d.type_ != 22 && d.HasExplicitContext ==> exists c *directive.Directive :: fresh(c) && core.currentContextDirective == c.Parent
 //@   unclaimed kind!=ensures only the C06 postconditions are claimed here: the tree-wide well-formedness of macro bodies (DirWF of every node, TreeWF across the recursion) is not carried through the replay, so the callee preconditions are assumed
 
 //@ func (*JApiCore).processPasteDirectiveList
-//@   tag C06 C07
+//@   tag C06 C07 C11
 //@   requires core != nil
+//@   ensures [C11] ruleCollects >= old(ruleCollects)
 //@   ensures [C06] forall x *directive.Directive :: x <= old(allocmark()) ==> x.Parent == old(x.Parent)
 //@   unclaimed kind!=ensures see processDirective
 //@   loop 1 invariant core != nil && 0 - 1 <= rangeindex && rangeindex <= rangelen - 1
 //@   loop 1 invariant forall x *directive.Directive :: x <= old(allocmark()) ==> x.Parent == old(x.Parent)
+//@   loop 1 invariant ruleCollects >= old(ruleCollects)
 //@ writers [C06] directive.Directive.type_ : directive.NewWithCallStack
 //@ writers [C06] directive.Directive.HasExplicitContext : (*JApiCore).processContextBegin
 
@@ -455,3 +469,29 @@ package core
 //@   loop 1 invariant forall j :: 0 <= j && j < len(properties) ==> properties[j].schemaContentJSight != nil && DirWFv(properties[j].directive)
 //@   loop 1 decreases rangelen - rangeindex
 //@   loop 1 frame nothing
+
+// ---------------------------------------------------------------- macro cycle search (C07)
+// The search for "does macro `name` paste `target` through any chain" marks the macros it has expanded in `visited`.
+// The target itself is never marked (calls are made only with name != target), so a chain that reaches the target is
+// never cut short; every search starts from an empty set. (Completeness of the depth-first search itself - it returns
+// true iff a chain exists - is a graph-reachability statement and is not machine-checked.)
+//@ func (*JApiCore).pastesMacro
+//@   tag C07 C01
+//@   requires core != nil && visited != nil && name != target && !has(visited, target)
+//@   modifies mapof(visited)
+//@   ensures !has(visited, target) && (forall k string :: old(has(visited, k)) ==> has(visited, k))
+//@   unclaimed #requires@directivePastesMacro macro bodies are not known to be well-formed trees here (d != nil)
+//@ func (*JApiCore).directivePastesMacro
+//@   tag C07 C01
+//@   requires core != nil && d != nil && visited != nil && !has(visited, target)
+//@   modifies mapof(visited)
+//@   ensures !has(visited, target) && (forall k string :: old(has(visited, k)) ==> has(visited, k))
+//@   unclaimed #requires@directivePastesMacro:core != nil && d != nil children of a directive are not known to be non-nil here
+//@   loop 1 invariant 0 - 1 <= rangeindex && rangeindex <= rangelen - 1 && !has(visited, target) && (forall k string :: old(has(visited, k)) ==> has(visited, k))
+//@   loop 1 frame visited
+//@ func (*JApiCore).findPaste
+//@   tag C07 C01
+//@   requires core != nil && DirWF(d) && !isnil(d.includeTracer)
+//@   unclaimed #requires@findPaste children of a macro body are not known to be well-formed here
+//@   unclaimed #nil-deref children of a macro body are not known to be non-nil here
+//@   loop 1 invariant 0 - 1 <= rangeindex && rangeindex <= rangelen - 1
